@@ -1,0 +1,159 @@
+//go:build verif
+
+// Contracts for the acv verifier (/verif). Comment-only file: no executable code.
+
+package pseudonymization
+
+//@ spec isAlnum(b byte) bool = ('a' <= b && b <= 'z') || ('A' <= b && b <= 'Z') || ('0' <= b && b <= '9')
+
+// Package initialisation: the TLD tables are non-empty and every TLD is short and starts with a dot.
+//@ func init()
+//@   props C10 C14
+//@   ensures len(ccTLDs) == 6 && len(allTLDs) == 11
+//@   ensures forall(i, 0, len(ccTLDs), len(ccTLDs[i]) == 3)
+//@   ensures forall(i, 0, len(allTLDs), 3 <= len(allTLDs[i]) && len(allTLDs[i]) <= 5)
+
+//@ func randomString(buf []byte) (err error)
+//@   props C10 C14
+//@   safety
+//@   loop 0 invariant 0 <= i && i <= len(buf) && forall(j, 0, i, isAlnum(buf[j]))
+//@          decreases len(buf) - i
+//@   ensures err == nil && forall(j, 0, len(buf), isAlnum(buf[j]))
+//@   modifies buf
+
+//@ func randomEmail(buf []byte) (err error)
+//@   props C10 C14
+//@   safety
+//@   ensures err == nil
+//@   ensures shape: 8 <= len(buf) ==> exists(k, 0, len(buf), buf[k] == '@')
+//@   modifies buf
+
+//@ func randomRead(buf []byte) (err error)
+//@   props C10 C14
+//@   safety
+//@   modifies buf
+
+//@ func encodeInt32(v int32) (d []byte)
+//@   props C10 C14
+//@   safety
+//@   ensures len(d) == 4 && le32(d) == uint32(v)
+
+//@ func encodeInt64(v int64) (d []byte)
+//@   props C10 C14
+//@   safety
+//@   ensures len(d) == 8 && le64(d) == uint64(v)
+
+//@ func decodeInt32(data []byte) (v int32, err error)
+//@   props C10 C14
+//@   safety
+//@   ensures err == nil ==> 4 <= len(data) && uint32(v) == le32(data)
+//@   ensures total: 4 <= len(data) ==> err == nil
+//@   modifies nothing
+
+//@ func decodeInt64(data []byte) (v int64, err error)
+//@   props C10 C14
+//@   safety
+//@   ensures err == nil ==> 8 <= len(data) && uint64(v) == le64(data)
+//@   ensures total: 8 <= len(data) ==> err == nil
+//@   modifies nothing
+
+//@ func (a anonymizer) AnonymizeBytes(value []byte, context common.TokenContext) (out []byte, err error)
+//@   props C10 C14
+//@   safety
+//@   ensures same-length: err == nil ==> len(out) == len(value) && fresh(out)
+
+//@ func (a anonymizer) AnonymizeStr(value string, context common.TokenContext) (out string, err error)
+//@   props C10 C14
+//@   safety
+//@   ensures same-length: err == nil ==> len(out) == len(value)
+//@   ensures alnum: err == nil ==> forall(j, 0, len(out), isAlnum(out[j]))
+
+//@ func (a anonymizer) AnonymizeEmail(email common.Email, context common.TokenContext) (out common.Email, err error)
+//@   props C10 C14
+//@   safety
+//@   ensures same-length: err == nil ==> len(out) == len(email)
+
+//@ func (a anonymizer) AnonymizeInt32(value int32, context common.TokenContext) (out int32, err error)
+//@   props C10 C14
+//@   safety
+
+//@ func (a anonymizer) AnonymizeInt64(value int64, context common.TokenContext) (out int64, err error)
+//@   props C10 C14
+//@   safety
+
+//@ func bytesToGolangValue(data []byte, dataType common.TokenType) (out interface{}, err error)
+//@   props C10 C14
+//@   safety
+//@   ensures bytes: err == nil && dataType == common.TokenType_Bytes ==> typeis(out, []byte) && sameslice(unbox(out, []byte), data)
+//@   ensures int32: err == nil && dataType == common.TokenType_Int32 ==> typeis(out, int32) && 4 <= len(data) && uint32(unbox(out, int32)) == le32(data)
+//@   ensures int64: err == nil && dataType == common.TokenType_Int64 ==> typeis(out, int64) && 8 <= len(data) && uint64(unbox(out, int64)) == le64(data)
+//@   ensures string: err == nil && dataType == common.TokenType_String ==> typeis(out, string)
+
+//@ func encodeToBytes(data interface{}, dataType common.TokenType) (out []byte, err error)
+//@   props C10 C14
+//@   safety
+//@   ensures int32: err == nil && typeis(data, int32) ==> dataType == common.TokenType_Int32 && len(out) == 4 && le32(out) == uint32(unbox(data, int32))
+//@   ensures int64: err == nil && typeis(data, int64) ==> dataType == common.TokenType_Int64 && len(out) == 8 && le64(out) == uint64(unbox(data, int64))
+//@   ensures bytes: err == nil && typeis(data, []byte) ==> dataType == common.TokenType_Bytes && sameslice(out, unbox(data, []byte))
+//@   ensures mismatch: typeis(data, int32) && dataType != common.TokenType_Int32 ==> err != nil
+
+//@ func (p *pseudoanonymizer) generateDataID(data []byte, context common.TokenContext, dataType common.TokenType) (id []byte, err error)
+//@   props C02 C10 C14
+//@   safety
+//@   ensures err == nil && len(id) == 32
+//@   at call hash.Hash.Write#1 : assert sameslice(arg[0], data)
+//@   at call hash.Hash.Write#3 : assert len(context.AdditionalContext) != 0 && sameslice(arg[0], context.AdditionalContext)
+//@   at call hash.Hash.Write#5 : assert len(context.AdditionalContext) == 0 && sameslice(arg[0], context.ClientID)
+//@   ensures owner-bound: called(hash.Hash.Write#3) || called(hash.Hash.Write#5)
+
+//@ func (p *pseudoanonymizer) generateKeyForToken(key []byte) (out []byte)
+//@   props C10 C14
+//@   safety
+//@   ensures len(out) == 2 + len(key) && out[0] == 't' && out[1] == '.' && forall(i, 0, len(key), out[2+i] == key[i])
+
+//@ func (p *pseudoanonymizer) generateKeyForHash(key []byte) (out []byte)
+//@   props C10 C14
+//@   safety
+//@   ensures len(out) == 2 + len(key) && out[0] == 'h' && out[1] == '.' && forall(i, 0, len(key), out[2+i] == key[i])
+
+//@ func (p *pseudoanonymizer) generateNewValue(f newValueFunc, value interface{}, context common.TokenContext, dataType common.TokenType) (out interface{}, err error)
+//@   props C02 C10 C14
+//@   safety
+//@   loop 0 invariant 0 <= i
+//@          decreases p.dataGenerationLoopLimit - i
+//@   ensures saved-before-returned: err == nil ==> called(TokenStorage.Save) && ret(TokenStorage.Save)[0] == nil && out == ret(dynamic.f)[0]
+//@   at call TokenStorage.Save : assert recv == p.storage && arg[1] == context && sameslice(arg[0], ret(generateKeyForToken)[0])
+//@   at call generateKeyForToken : assert sameslice(arg[0], ret(generateDataID)[0])
+//@   at call generateDataID : assert arg[1] == context && arg[2] == dataType && sameslice(arg[0], ret(encodeToBytes#0)[0])
+//@   at call encodeToBytes#0 : assert arg[0] == ret(dynamic.f)[0]
+//@   at call dynamic.f : assert arg[1] == context
+
+//@ func (p *pseudoanonymizer) Deanonymize(token interface{}, context common.TokenContext, dataType common.TokenType) (out interface{}, err error)
+//@   props C02 C10 C14
+//@   safety
+//@   ensures unknown-token-unchanged: called(TokenStorage.Get) && ret(TokenStorage.Get)[1] != nil ==> out == token && err == nil
+//@   ensures type-checked: err == nil && called(common.TokenValueFromData) ==> ret(common.TokenValueFromData)[0].Type == dataType
+//@   at call TokenStorage.Get : assert recv == p.storage && arg[1] == context && sameslice(arg[0], ret(generateKeyForToken)[0])
+//@   at call generateDataID : assert arg[1] == context && arg[2] == dataType && sameslice(arg[0], ret(encodeToBytes)[0])
+//@   at call encodeToBytes : assert arg[0] == token && arg[1] == dataType
+
+//@ func (p *pseudoanonymizer) AnonymizeConsistently(data interface{}, context common.TokenContext, dataType common.TokenType) (out interface{}, err error)
+//@   props C02 C10 C14
+//@   safety
+//@   loop 0 invariant true
+//@   at call TokenStorage.Get : assert recv == p.storage && arg[1] == context && sameslice(arg[0], ret(generateKeyForHash)[0])
+//@   at call TokenStorage.Save : assert recv == p.storage && arg[1] == context && sameslice(arg[0], ret(generateKeyForHash)[0])
+//@   at call generateKeyForHash : assert sameslice(arg[0], ret(generateDataID)[0])
+//@   at call generateDataID : assert arg[1] == context && arg[2] == dataType && sameslice(arg[0], ret(encodeToBytes#0)[0])
+//@   at call encodeToBytes#0 : assert arg[0] == data && arg[1] == dataType
+//@   at call Anonymize : assert arg[0] == data && arg[1] == context && arg[2] == dataType
+
+//@ func (t *DataTokenizer) Tokenize(data []byte, context common.TokenContext, setting config.ColumnEncryptionSetting) (out []byte, err error)
+//@   props C10
+//@   at call dynamic.anonymize : assert arg[1] == context
+//@   ensures int32-in-range: called(dynamic.anonymize#0) ==> typeis(argof(dynamic.anonymize#0)[0], int32) && int64(unbox(argof(dynamic.anonymize#0)[0], int32)) == ret(strconv.ParseInt#0)[0] && ret(strconv.ParseInt#0)[1] == nil
+
+//@ func (t *DataTokenizer) Detokenize(data []byte, context common.TokenContext, setting config.ColumnEncryptionSetting) (out []byte, err error)
+//@   props C10
+//@   at call Pseudoanonymizer.Deanonymize : assert arg[1] == context
+//@   ensures int32-in-range: called(Pseudoanonymizer.Deanonymize#0) ==> typeis(argof(Pseudoanonymizer.Deanonymize#0)[0], int32) && int64(unbox(argof(Pseudoanonymizer.Deanonymize#0)[0], int32)) == ret(strconv.ParseInt#0)[0] && ret(strconv.ParseInt#0)[1] == nil
